@@ -397,7 +397,7 @@ PROP = Property(
           "run; distinct = that tuple."),
     strategy=strategy,
     run_case=run_case,
-    budgets={"quick": 160, "thorough": 6400},
+    budgets={"quick": 160, "thorough": 1600},
     calibrate=calibrate,
     assumptions=[
         "fault model of the statement: persistent vanish / zombie, one-shot "
